@@ -19,6 +19,7 @@ type (
 	EBool   struct{ V bool }
 	ENil    struct{}
 	EStr    struct{ S string }
+	EFloat  struct{ V float64 }
 	EUnary  struct {
 		Op string
 		X  Expr
@@ -124,6 +125,10 @@ type SpecFunc struct {
 	Pkg    string
 	Src    string
 	Rec    bool
+	// state components the body reads (heap-dependent recursive spec functions); computed on first use
+	Keys     []string
+	KeySorts []*Sort
+	KeysDone bool
 }
 
 type Lemma struct {
@@ -172,6 +177,15 @@ func lex(src string) ([]tok, error) {
 			j := i
 			for j < len(src) && (src[j] >= '0' && src[j] <= '9' || src[j] >= 'a' && src[j] <= 'f' || src[j] >= 'A' && src[j] <= 'F' || src[j] == 'x' || src[j] == 'X' || src[j] == '_') {
 				j++
+			}
+			if j+1 < len(src) && src[j] == '.' && src[j+1] >= '0' && src[j+1] <= '9' {
+				k := j + 1
+				for k < len(src) && src[k] >= '0' && src[k] <= '9' {
+					k++
+				}
+				out = append(out, tok{"float", src[i:k]})
+				i = k
+				continue
 			}
 			out = append(out, tok{"int", strings.ReplaceAll(src[i:j], "_", "")})
 			i = j
@@ -467,6 +481,10 @@ func (p *parser) primary() Expr {
 		return &EInt{v}
 	case "str":
 		return &EStr{t.s}
+	case "float":
+		var f float64
+		fmt.Sscanf(t.s, "%g", &f)
+		return &EFloat{f}
 	case "id":
 		switch t.s {
 		case "true":
@@ -497,7 +515,7 @@ func (p *parser) primary() Expr {
 
 // ---- contract file reader
 
-var stmtKeywords = map[string]bool{"trusted": true, "assume_after": true, "iface": true, "package": true, "ghost": true, "pred": true, "def": true, "func": true, "requires": true, "ensures": true,
+var stmtKeywords = map[string]bool{"functional": true, "trusted": true, "assume_after": true, "iface": true, "package": true, "ghost": true, "pred": true, "def": true, "func": true, "requires": true, "ensures": true,
 	"modifies": true, "loop": true, "lemma": true, "axiom": true, "opt": true, "inline": true, "pure": true, "use": true}
 
 func readContractFile(path, pkg string) (*ContractFile, error) {
@@ -689,6 +707,10 @@ func readContractFile(path, pkg string) (*ContractFile, error) {
 				cur.Inline = true
 			case "pure":
 				cur.Pure = true
+			case "functional":
+				// the (scalar) results are a function of the argument values only
+				cur.Pure = true
+				cur.Opts["functional"] = "true"
 			case "opt":
 				kv := strings.SplitN(rest, "=", 2)
 				if len(kv) == 2 {
